@@ -62,10 +62,10 @@ META = {
         "technique": "Lean 4 proofs: length bounds by digit-count arithmetic; round trip by induction over digit lists and printed fields; agreement by induction over the parser loop with an uninterpreted float step; differential value-space and grammar sweep as the tie",
     },
     "C19": {
-        "text": "Partial proof: over a method-by-method model of the buffer (read offset, unread bookkeeping, grow with its four branches) the representation invariant is proved for every operation sequence (induction), hence no out-of-range slice panic, and the only panics are the documented ones; algebraic laws of Write/Reset/Truncate are proved. Observational equivalence with bytes.Buffer is decided by three-way differential lock-step (PrintCtx vs model, bytes.Buffer vs model, PrintCtx vs bytes.Buffer) over random operation sequences with boundary sizes, invalid runes and failing readers/writers; the Go runtime's capacity growth is an oracle input, not modelled.",
+        "text": "Partial proof: over a method-by-method model of the buffer (read offset, unread bookkeeping, grow with its four branches) the representation invariant is proved for every operation sequence (induction), hence no out-of-range slice panic, and the only panics are the documented ones; algebraic laws of Write/Reset/Truncate are proved; the model is proved to refine, operation by operation and over whole histories, a queue specification stated without slices, offsets and capacities (consumed / unread bytes and the last-read kind; making room may only forget the consumed bytes), so every result is independent of capacity, nil-ness and the runtime's growth. Observational equivalence with bytes.Buffer is decided by three-way differential lock-step (PrintCtx vs model, bytes.Buffer vs model, PrintCtx vs bytes.Buffer) over random operation sequences with boundary sizes, invalid runes and failing readers/writers; the Go runtime's capacity growth is an oracle input, not modelled.",
         "design_ref": "DESIGN.md §7 C19",
         "note": "Trusted: Lean kernel; Go runtime slice growth (oracle); bytes.Buffer of the installed toolchain as the reference.",
-        "technique": "Lean 4 invariant proof over operation sequences on a concrete buffer model; three-way differential lock-step",
+        "technique": "Lean 4 invariant and refinement proofs (concrete buffer model refines a queue specification) over operation sequences; three-way differential lock-step",
     },
     "C18": {
         "text": "Proof over all iteration orders of the Go map: with the privacy flag on, absolute keys, relative non-empty replacements and rules that keep relative paths relative, no path under a registered mapping keeps that prefix (the first mapping that fires makes the path relative, after which nothing matches and the final relativisation is skipped); the hypotheses are shown necessary by a proved counterexample. One known finding (explicitly removing the home mapping unprotects home) is replayed and reported as KNOWN-FINDING. Correspondence: mapping-table histories, repeated queries, answer accepted iff it equals the model's for some permutation.",
